@@ -244,6 +244,11 @@ def call_name(I, n, name, args, kwargs):
         return Gen(out)
     if name == 'range':
         return Other('range')
+    if name == 'divmod' and len(args) == 2:
+        if all(isinstance(a, Lit) for a in args) and args[1].v:
+            q_, r_ = divmod(args[0].v, args[1].v)
+            return Tup([Lit(q_), Lit(r_)])
+        return Tup([Other('int'), Other('int')])
     if name in ('type', 'print', 'id', 'hash', 'repr', 'filter', 'next', 'iter', 'chr', 'ord'):
         return Other(name)
     if name in ('ValueError', 'TypeError', 'RuntimeError', 'Exception', 'KeyError'):
@@ -368,6 +373,20 @@ def call_attr(I, n, f, args, kwargs):
                 d[key] = val
         return d
     src = _dotted(f)
+    if src == 'unicodedata.normalize' and len(args) == 2 and not I.env.has('unicodedata'):
+        # compatibility normalisation (NFKC / NFKD) rewrites characters: decided against the prefix table
+        import unicodedata as _ud
+        from .units import SI as _SI
+        form = I.as_tstr(args[0])
+        form = form.text() if form is not None and form.is_literal() else None
+        if form is None:
+            I.incomplete(n, 'unicodedata.normalize with an unknown form')
+        changed = sorted(k for k in _SI if k and _ud.normalize(form, k) != k and _ud.normalize(form, k) not in _SI)
+        I.sink(n, 'string-rewrite', not changed,
+               f"unicodedata.normalize({form!r}, ..) rewrites the prefix character(s) {changed} (U+{ord(changed[0][0]):04X} -> "
+               f"U+{ord(_ud.normalize(form, changed[0])[0]):04X}) to characters that are not in the prefix table: a "
+               f"documented spelling is refused" if changed else '')
+        return args[1]
     if src is not None and src.startswith(('numpy.', 'np.', 'pandas.', 'math.')):
         hook = I.opts.get('numpy_hook')
         if hook is not None:
@@ -375,6 +394,22 @@ def call_attr(I, n, f, args, kwargs):
             if r is not None:
                 return r
         short = src.split('.', 1)[1]
+        if short in ('isclose', 'allclose'):
+            # numpy: |a - b| <= atol + rtol * |b| with atol = 1e-8 unless given; math.isclose has abs_tol = 0 by default
+            is_numpy = not src.startswith('math.')
+            tol = kwargs.get('atol' if is_numpy else 'abs_tol')
+            absolute = (is_numpy and tol is None) or (tol is not None and not (isinstance(tol, Lit) and tol.v == 0))
+            stored = False
+            for a in args[:2]:
+                if isinstance(a, Num):
+                    try:
+                        stored = stored or I.bound_unit(a.unit).has_storage_symbol()
+                    except Exception:
+                        pass
+            I.sink(n, 'storage-compare', not (absolute and stored),
+                   f"{src} applies an absolute tolerance to values still in their storage unit: what counts as equal "
+                   f"depends on the storage configuration (1e-8 L is 0.01 uL, 1e-8 uL is nothing)")
+            return Bool(None)
         if short in ('vectorize', 'frompyfunc') and args:
             return Vectorized(args[0])
         if short in ('zeros', 'zeros_like'):
@@ -387,6 +422,12 @@ def call_attr(I, n, f, args, kwargs):
     if t is not None:
         return str_method(I, n, t, name, args)
     if isinstance(recv, (UserQ, UserC, UserStr)):
+        if name in ('lower', 'upper', 'casefold', 'swapcase', 'title', 'capitalize'):
+            I.sink(n, 'string-rewrite', False, f"str.{name}() changes the case of a unit string: 'm' (milli) and 'M' "
+                                               f"(mega / molar) are different spellings")
+            return recv
+        if name == 'strip' and not args:
+            return recv         # surrounding white space only: the tokens are unchanged
         return Other('userstr.' + name)
     if isinstance(recv, Subst):
         if name in ('is_enzyme', 'is_liquid', 'is_solid'):
@@ -509,6 +550,12 @@ def str_method(I, n, t: TStr, name, args):
         if r is not None:
             return S(r)
         return Other('str.removesuffix')
+    if name in ('lower', 'upper', 'casefold', 'swapcase', 'title', 'capitalize') and not t.is_literal():
+        I.sink(n, 'string-rewrite', False, f"str.{name}() changes the case of a unit string: 'm' (milli) and 'M' (mega / "
+                                           f"molar) are different spellings")
+        return S(t)
+    if name == 'strip' and not args:
+        return S(t)             # surrounding white space only (the templates carry none)
     if name in ('strip', 'lower', 'upper', 'lstrip', 'rstrip', 'format', 'replace', 'splitlines', 'join', 'title'):
         if name == 'join':
             return Other('joined')
